@@ -125,6 +125,7 @@ func (r *registry) handleManifestGet(ctx context.Context, resp http.ResponseWrit
 	if err != nil {
 		return err
 	}
+	defer mr.Close()
 	desc := mr.Descriptor()
 	if !r.opts.OmitDigestFromTagGetResponse {
 		resp.Header().Set("Docker-Content-Digest", string(desc.Digest))
